@@ -322,7 +322,7 @@ func RunCheck(o Options) int {
 	}
 	if budget == 0 {
 		if o.Tier == "quick" {
-			budget = 100
+			budget = 150 // quick tiers are sized for ≤ 100 s on 16 idle cores; the margin is for a busy machine
 		} else {
 			budget = 1500
 		}
